@@ -76,7 +76,7 @@ PROPS = {
                                 outs={'compAddBcast', 'compDeleteBcast', 'compUpdateBcast', 'subscribeResp', 'unsubscribeResp', 'error'})),
     'C14': dict(extra=['wire_harness'], tools=['drive', 'extract', 'wire'], modules=['Hagall.Props.C14'], profiles=['custom', 'mixed', 'crowd'], n=(240, 4000), focus={'custom'},
                 topics=slice_of(['custom'])),
-    'C16': dict(tools=['drive', 'extract', 'wire-race'], extra=['race_harness', 'conc_explore'], modules=['Hagall.Props.C16', 'Hagall.Props.C01Conc'], profiles=['module', 'mixed'], n=(240, 4000), focus={'action', 'assetAdd'},
+    'C16': dict(tools=['drive', 'extract', 'wire-race'], extra=['race_harness', 'conc_explore'], modules=['Hagall.Props.C16', 'Hagall.Props.C01Conc', 'Hagall.Props.C16Conc'], profiles=['module', 'mixed'], n=(240, 4000), focus={'action', 'assetAdd'},
                 topics=slice_of(['action', 'assetAdd', 'join', 'entityDelete', 'disconnect'],
                                 outs={'vikjaState', 'odalState', 'actionResp', 'actionBcast', 'assetAddResp', 'assetAddBcast', 'error'},
                                 pred=lambda d: not (d.get('topic') in ('entityDelete', 'disconnect') and d['outs'] <= {'error'}))),
